@@ -243,7 +243,7 @@ func (el *eventloop) open(c *conn) error {
 
 	if !c.outboundBuffer.IsEmpty() && !el.engine.opts.EdgeTriggeredIO {
 		if err := el.poller.ModReadWrite(&c.pollAttachment, false); err != nil {
-			return err
+			return el.close(c, err) // the pending data could never be sent
 		}
 	}
 
@@ -353,7 +353,12 @@ loop:
 	// All data have been sent, it's no need to monitor the writable events for LT mode,
 	// remove the writable event from poller to help the future event-loops if necessary.
 	if !isET && c.outboundBuffer.IsEmpty() {
-		return el.poller.ModRead(&c.pollAttachment, false)
+		if err = el.poller.ModRead(&c.pollAttachment, false); err != nil {
+			// The connection would keep reporting writable events forever, close it like any
+			// other connection whose system call failed instead of dropping the error.
+			return el.close(c, err)
+		}
+		return nil
 	}
 
 	// To prevent infinite writing in ET mode and starving other events,
